@@ -105,6 +105,29 @@ def evaluate(steps, M, N, dim, dt=2e-15):
             viols.append(('tracer-diffusivity-differs-from-definition', f'got={D} own={own_D} dim={dim} N={N} T={T}'))
     except Exception as e:  # noqa: BLE001
         viols.append((f'diffusivity-raise-{type(e).__name__}', str(e)))
+    # start from a non-initial object too: query the first k frames, extend in place with the rest, and ask
+    # again - the answers must be those of the whole trajectory (differential form of the same definitions)
+    if T >= 4:
+        k = T // 2
+        try:
+            ta = concretise.make_trajectory(wrapped[:k], ['Li'] * N, M, time_step=dt)
+            tb = concretise.make_trajectory(wrapped[k:], ['Li'] * N, M, time_step=dt)
+            ta.mean_squared_displacement()
+            ta.distances_from_base_position()
+            ta.metrics().tracer_diffusivity(dimensions=dim)
+            ta.extend(tb)
+            msd2 = np.asarray(ta.mean_squared_displacement())
+            dist2 = np.asarray(ta.distances_from_base_position())
+            D2 = float(ta.metrics().tracer_diffusivity(dimensions=dim))
+            own_D = np.mean(np.sum(((unwrapped[-1] - unwrapped[0]) @ M) ** 2, axis=-1)) * ANG2 / (2 * dim * T * dt)
+            if msd2.shape != own.shape or not np.allclose(msd2, own, rtol=1e-9, atol=1e-9):
+                viols.append(('msd-after-query-and-extend-differs-from-definition', f'shape {msd2.shape} vs {own.shape}'))
+            if dist2.shape != (N, T) or not np.allclose(dist2, np.linalg.norm(r - r[0][None], axis=-1).T, rtol=1e-9, atol=1e-9):
+                viols.append(('distance-after-query-and-extend-differs-from-definition', f'shape {dist2.shape}'))
+            if abs(D2 - own_D) > 1e-9 * max(abs(own_D), ANG2 / (T * dt) * 1e-3):
+                viols.append(('tracer-diffusivity-after-query-and-extend-differs', f'{D2} vs {own_D}'))
+        except Exception as e:  # noqa: BLE001
+            viols.append((f'query-extend-raise-{type(e).__name__}', str(e)))
     return viols, key
 
 
